@@ -33,7 +33,7 @@ func c14Gen(tier string, rng *rand.Rand) []c13Case {
 			}
 		}
 	}
-	return cs
+	return append(cs, c14MgrGenCases(tier, rng)...)
 }
 
 func c14Probe(rng *rand.Rand, keys []uint32) []uint32 {
@@ -137,6 +137,7 @@ func c14Extra(tier string, rng *rand.Rand, res *Result) {
 	res.Stats["history_independence_and_disruption_probes"] = count
 	c14Collision(tier, res)
 	c14CtxRouting(tier, rng, res)
+	c14MgrHistories(tier, rng, res)
 }
 
 // c14Collision searches generated host names for two hosts with a common virtual node (a real md5 collision on
